@@ -356,7 +356,8 @@ def check_shadowing(ctx, V, lits, rid, families=None):
             for e, tt in sorted(ext.items()):
                 l = ls[0]
                 key = f'{name}:{w}->{e}'
-                known = e in words or any(e.startswith(p) for p in prefixes)
+                known = e in words or any(e.startswith(p) for p in prefixes) or any(
+                    isinstance(x.side, dict) and x.side.get('first_word') for x in ls)
                 # fused tokens ending in another listed word of the family count as known if the family lists the fused form
                 if known:
                     ctx.ob(rid, key, l.loc, f'{name}: fused token {e!r} is listed next to {w!r}', True)
